@@ -215,6 +215,19 @@ def install(I):
             nb = bits[n:] + bits[:n]
         return [(mk_int(w, x[2], nb), st)]
 
+    @model("::swap_bytes", "::reverse_bits")
+    def bitperm(I, st, a, ctx):
+        x = a[0]
+        if not is_int(x):
+            return [(TOP, st)]
+        w = x[1]
+        bits = bits_of(x)
+        if ctx["term"]["callee"].endswith("reverse_bits"):
+            nb = tuple(reversed(bits))
+        else:
+            nb = tuple(b_ for k in range(w // 8 - 1, -1, -1) for b_ in bits[8 * k: 8 * k + 8])
+        return [(mk_int(w, x[2], nb), st)]
+
     @model("::wrapping_add", "::wrapping_sub", "::wrapping_mul")
     def wrapping(I, st, a, ctx):
         op = {"add": "Add", "sub": "Sub", "mul": "Mul"}[ctx["term"]["callee"].rsplit("_", 1)[1]]
@@ -415,6 +428,107 @@ def install(I):
             I.write_loc(st, (d[0][0], d[0][1], d[0][2], None), I.havoc_value(old))
         return [(UNIT, st)]
 
+    def _concrete_eq(I, st, x, y, depth=0):
+        """structural equality of two fully concrete values (through references); None when either is not concrete"""
+        if depth > 6:
+            return None
+        if is_ptr(x):
+            x = I.read_loc(st, (x[1], x[2], x[3], None))
+        if is_ptr(y):
+            y = I.read_loc(st, (y[1], y[2], y[3], None))
+        if is_int(x) and is_int(y):
+            cx, cy = int_const(x), int_const(y)
+            return None if cx is None or cy is None else cx == cy
+        if is_agg(x) and is_agg(y):
+            if x[3] is None and x[1] == "enum" or y[3] is None and y[1] == "enum":
+                return None
+            if x[3] != y[3]:
+                return False
+            if len(x[4]) != len(y[4]):
+                return None
+            out = True
+            for a_, b_ in zip(x[4], y[4]):
+                r = _concrete_eq(I, st, a_, b_, depth + 1)
+                if r is None:
+                    return None
+                out = out and r
+            return out
+        return None
+
+    @model("cmp::PartialEq::eq", "cmp::PartialEq::ne")
+    def partial_eq(I, st, a, ctx):
+        # derived / core PartialEq on fully concrete values (Option<BlockIdx> tags and the like); anything else stays unknown
+        from .mir import strip_generics as _sg
+        res_ = ctx.get("term", {}).get("resolved")
+        if res_ and _sg(res_) in I.by_path:
+            return NotImplemented                               # the crate's own impl (derived or not) has a body: evaluate that
+        if len(a) == 2:
+            r = _concrete_eq(I, st, a[0], a[1])
+            if r is not None:
+                ne = (ctx.get("term", {}).get("callee") or "").endswith("::ne")
+                return [(const(int(r != ne), 1), st)]
+        return [(top_int(1), st)]
+
+    def _ordering(I, st, x, y, ctx, depth=0):
+        """-1 / 0 / 1 for two concrete values, None when undecided.  Integers directly; a crate type through its own
+        partial_cmp / cmp impl (derived or hand-written: its MIR is evaluated, nothing is assumed about it)."""
+        if depth > 4:
+            return None
+        px, py = x, y
+        if is_ptr(x):
+            x = I.read_loc(st, (x[1], x[2], x[3], None))
+        if is_ptr(y):
+            y = I.read_loc(st, (y[1], y[2], y[3], None))
+        if is_int(x) and is_int(y):
+            cx, cy = int_const(x), int_const(y)
+            return None if cx is None or cy is None else (cx > cy) - (cx < cy)
+        if is_agg(x) and is_agg(y) and x[2] and x[2] == y[2] and x[1] == "struct":
+            for tr, m in (("core::cmp::PartialOrd", "partial_cmp"), ("core::cmp::Ord", "cmp")):
+                f = [g for g in I.F.fns if g.npath == "<%s as %s>::%s" % (x[2], tr, m)]
+                if not f:
+                    continue
+                if not (is_ptr(px) and is_ptr(py)):
+                    px, py = I.heap_alloc(st, x), I.heap_alloc(st, y)
+                outs = I.run(f[0], [px, py], st.fork(), depth + 1)
+                if len(outs) != 1:
+                    return None
+                r = outs[0][0]
+                if m == "partial_cmp":
+                    if not (is_agg(r) and r[3] == 1 and r[4]):
+                        return None
+                    r = r[4][0]
+                if is_agg(r) and (r[2] or "").endswith("cmp::Ordering") and r[3] is not None:
+                    return r[3] - 1
+                return None
+        return None
+
+    def _mk_ordering(o):
+        return agg("enum", "core::cmp::Ordering", o + 1, [])
+
+    @model("cmp::PartialOrd::lt", "cmp::PartialOrd::le", "cmp::PartialOrd::gt", "cmp::PartialOrd::ge")
+    def partial_ord_cmp(I, st, a, ctx):
+        if len(a) == 2:
+            o = _ordering(I, st, a[0], a[1], ctx)
+            if o is not None:
+                m = (ctx.get("term", {}).get("callee") or "").split("::")[-1]
+                return [(const(int({"lt": o < 0, "le": o <= 0, "gt": o > 0, "ge": o >= 0}[m]), 1), st)]
+        return [(top_int(1), st)]
+
+    @model("cmp::PartialOrd::partial_cmp", "cmp::Ord::cmp")
+    def partial_cmp(I, st, a, ctx):
+        if len(a) == 2:
+            x, y = a
+            if is_ptr(x):
+                x = I.read_loc(st, (x[1], x[2], x[3], None))
+            if is_ptr(y):
+                y = I.read_loc(st, (y[1], y[2], y[3], None))
+            if is_int(x) and is_int(y) and int_const(x) is not None and int_const(y) is not None:
+                o = _mk_ordering((int_const(x) > int_const(y)) - (int_const(x) < int_const(y)))
+                if (ctx.get("term", {}).get("callee") or "").endswith("partial_cmp"):
+                    return [(agg("enum", "core::option::Option", 1, [o]), st)]
+                return [(o, st)]
+        return NotImplemented
+
     @model("<impl [T]>::fill", "slice::fill")
     def fill(I, st, a, ctx):
         d = slice_view(I, st, a[0])
@@ -483,6 +597,12 @@ def install(I):
         if it[1] == "enumerate":
             cnt, item = iter_items(I, st, it[2][0])
             return cnt, agg("tuple", None, None, [mk_int(64, False, None, 0, max(cnt - 1, 0)), item])
+        if it[1] == "zip":
+            ca, ia = iter_items(I, st, it[2][0])
+            cb, ib = iter_items(I, st, it[2][1])
+            if ca is None or cb is None:
+                return None, TOP
+            return min(ca, cb), agg("tuple", None, None, [ia, ib])
         return None, TOP
     I.iter_items = iter_items
 
@@ -491,12 +611,66 @@ def install(I):
     def into_iter(I, st, a, ctx):
         return [(a[0], st)]
 
+    @model("Iterator::zip")
+    def zip_(I, st, a, ctx):
+        if all(isinstance(x, tuple) and x and x[0] == "iter" for x in a[:2]) and len(a) >= 2:
+            return [(("iter", "zip", (a[0], a[1])), st)]
+        return NotImplemented
+
+    def concrete_next(I, st, it):
+        """one exact step of an iterator over storage of known length: (item | None when exhausted, iterator afterwards);
+        NotImplemented when the length is not a constant"""
+        pos = it[3] if len(it) > 3 else 0
+        if it[1] in ("slice", "chunks"):
+            base, n, ln = it[2]
+            total = int_const(ln)
+            sv = slice_view(I, st, base)
+            if total is None or sv is None or int_const(sv[1]) is None:
+                return NotImplemented
+            if pos >= total // n:
+                return None, it
+            loc, start, _ln, _e = sv
+            s0 = int_const(start)
+            if it[1] == "chunks":
+                item = ptr(loc[0], loc[1], loc[2], (const(s0 + pos * n, 64), const(n, 64)), base[5] if is_ptr(base) else False)
+            else:
+                item = ptr(loc[0], loc[1], loc[2] + (("i", const(s0 + pos, 64), None),), None, base[5] if is_ptr(base) and len(base) > 5 else False)
+            return item, (it[0], it[1], it[2], pos + 1)
+        if it[1] == "enumerate":
+            r = concrete_next(I, st, it[2][0])
+            if r is NotImplemented:
+                return r
+            item, inner = r
+            if item is None:
+                return None, it
+            return agg("tuple", None, None, [const(pos, 64), item]), (it[0], it[1], (inner,), pos + 1)
+        if it[1] == "zip":
+            ra = concrete_next(I, st, it[2][0])
+            if ra is NotImplemented:
+                return ra
+            if ra[0] is None:
+                return None, it
+            rb = concrete_next(I, st, it[2][1])
+            if rb is NotImplemented:
+                return rb
+            if rb[0] is None:
+                return None, (it[0], it[1], (ra[1], it[2][1]))
+            return agg("tuple", None, None, [ra[0], rb[0]]), (it[0], it[1], (ra[1], rb[1]))
+        return NotImplemented
+
     @model("Iterator::next")
     def next_(I, st, a, ctx):
         p = a[0]
         if not is_ptr(p):
             return NotImplemented
         v = I.read_loc(st, (p[1], p[2], p[3], None))
+        if isinstance(v, tuple) and v and v[0] == "iter" and I.mode == "bv":
+            # exact mode: loops are unrolled, so the iterator is stepped exactly when its length is a constant
+            r = concrete_next(I, st, v)
+            if r is not NotImplemented:
+                item, v2 = r
+                I.write_loc(st, (p[1], p[2], p[3], None), v2)
+                return [(NONE if item is None else some(item), st)]
         if isinstance(v, tuple) and v and v[0] == "iter":
             cnt, item = iter_items(I, st, v)
             if cnt is None:
